@@ -105,10 +105,14 @@ def c17_oracle(case, obs):
                 rest.append((src, dst, tag))
         return rest
 
+    children = {}               # (local, peer) of a connection still owned by a listener -> listener handle
+
     def syn_arrives(h, src, dst):
         l = listener_for(socks, h, dst)
         if l is not None and l.handle is not None:
-            syn_for.setdefault(l.handle, set()).add((F.norm_ip(src[0]), src[1]))
+            peer = (F.norm_ip(src[0]), src[1])
+            syn_for.setdefault(l.handle, set()).add(peer)
+            children[((F.norm_ip(dst[0]), dst[1]), peer)] = l.handle
 
     for i, cmd in enumerate(case["script"]):
         o = obs["steps"][i]
@@ -186,6 +190,8 @@ def c17_oracle(case, obs):
                 else:
                     syn_for[cmd[1]].discard(peer)
                 if o.get("local"):
+                    children.pop(((F.norm_ip(o["local"][0]), o["local"][1]), peer), None)
+                if o.get("local"):
                     s = OSock(l.host, "tcp", "conn", o["local"][0], o["local"][1], hd)
                     s.peer = peer
                     socks.append(s)
@@ -199,6 +205,8 @@ def c17_oracle(case, obs):
                 else:
                     socks.remove(s)
                     syn_for.pop(cmd[1], None)
+                    for key in [k for k, v in children.items() if v == cmd[1]]:
+                        del children[key]
         elif n == "udp_connect":
             s = by_handle.get(cmd[1])
             if s is not None and o["r"] == "ok":
@@ -238,6 +246,15 @@ def c17_oracle(case, obs):
                         if h2 is not None:
                             syn_arrives(h2, src, dst)
                 syn_pending[h] = []
+            # closing one socket must not reset a connection that belongs to another, live listener
+            for d in o["out"]:
+                if d[2] == 1 and d[5] == 10:
+                    key = ((F.norm_ip(d[0]), d[3]), (F.norm_ip(d[1]), d[4]))
+                    if key in children:
+                        l = by_handle.get(children[key])
+                        out.append(("%s: the connection %s <- %s, still owned by the live listener %s:%d (handle %d), was reset although that listener was not closed"
+                                    % (where, key[0], key[1], l.addr if l else "?", l.port if l else 0, children[key]), None))
+                        del children[key]
             # nothing with a local destination may be seen on the wire
             for d in o["out"]:
                 so = owner(hosts, d[0])
@@ -324,6 +341,7 @@ class Spec(PropSpec):
         cases = (rng.sample(bm, 120) if q else bm) + dm
         cases += [F.gen_net(rng) for _ in range(260 * n)]
         cases += [F.gen_wrap(rng) for _ in range(40 * n)]
+        cases += [F.gen_dualstack(rng) for _ in range(40 * n)]
         cases += F.gen_alloc_exhaustive() + [F.gen_alloc(rng) for _ in range(60 * n)]
         return cases
 
